@@ -441,6 +441,19 @@ def sweep_families(tier):
         "cycle.reuse-self-in-loop": '<specs><g id="a"><loop count="3"><reuse href="#a"/></loop></g></specs><reuse href="#a"/>',
     }.items():
         yield fam, 0, doc(body), True
+    # recursion that only the depth limit stops, next to a sibling that fails for an ordinary reason in the same pass: the limit
+    # error arrives mixed with other errors and must still be final (otherwise every level retries: 2^depth-limit)
+    bad = '<rect xy="#nope|h" wh="2"/>'
+    for fam, body in {
+        "cycle.reuse-self+failing-sibling-before": '<g id="a">\n%s\n<reuse href="#a"/>\n</g>' % bad,
+        "cycle.reuse-self+failing-sibling-after": '<g id="a">\n<reuse href="#a"/>\n%s\n</g>' % bad,
+        "cycle.reuse-param+failing-sibling-specs": '<specs>\n<g id="t">\n%s\n<reuse href="$next"/>\n</g>\n</specs>\n<reuse href="#t" next="#t"/>' % bad,
+        "cycle.reuse-param+failing-sibling-body": '<g id="t" next="#t">\n%s\n<reuse href="$next"/>\n</g>' % bad,
+        "cycle.reuse-pair+failing-sibling": '<g id="a">\n%s\n<reuse href="#b"/>\n</g>\n<g id="b">\n<reuse href="#a"/>\n<circle r="{{$undefined}}"/>\n</g>' % bad,
+        "cycle.nest+failing-sibling": "".join('<g>\n%s\n' % bad for _ in range(110)) + "</g>" * 110,
+        "cycle.reuse-self+failing-sibling-in-loop": '<g id="a">\n<loop count="2">%s</loop>\n<reuse href="#a"/>\n</g>' % bad,
+    }.items():
+        yield fam, 0, doc(body), True
     # a limit lowered in mid-document by a <config> element that itself sits deeper than (or at) the new limit, followed by
     # content that can only be stopped by that limit
     runaway = {
